@@ -34,8 +34,19 @@ import (
 
 type ctx struct {
 	r *common.Run
+	// rnd: the run's generator.  common.NewRand(seed) starts seed n+1 exactly one draw after
+	// seed n (its state is seed*γ + c and every draw adds γ), so consecutive VERIF_SEEDs would
+	// replay almost the same sub-seeds; the seed is therefore mixed before it is used.
+	rnd *common.Rand
 	// skel: prefix code of the regenerated skeleton of every writer of the working tree
 	skel map[string]string
+}
+
+// mixSeed is the splitmix64 finaliser: unrelated streams for neighbouring seeds.
+func mixSeed(s uint64) uint64 {
+	z := (s + 0x632BE59BD9B4E019) * 0xBF58476D1CE4E5B9
+	z = (z ^ (z >> 29)) * 0x94D049BB133111EB
+	return z ^ (z >> 32)
 }
 
 func repoDir() string {
@@ -316,7 +327,7 @@ func (c *ctx) replay(lines []string) {
 
 // Run is the C19 runner.
 func Run(r *common.Run) error {
-	c := &ctx{r: r, skel: skeletons(repoDir())}
+	c := &ctx{r: r, skel: skeletons(repoDir()), rnd: common.NewRand(mixSeed(r.Seed))}
 	if r.Replay != "" {
 		lines, err := common.ReplayLines(r.Replay)
 		if err != nil {
@@ -388,7 +399,7 @@ func Run(r *common.Run) error {
 	nForm := r.Pick(1500, 20000)
 	for i := 0; i < nForm; i++ {
 		r.Mark("case form %d", i)
-		formCase(c, r.Rnd.Uint64(), i%10 == 9, "random")
+		formCase(c, c.rnd.Uint64(), i%10 == 9, "random")
 	}
 	modelCases(c)
 	modelCases2(c)
@@ -399,20 +410,20 @@ func Run(r *common.Run) error {
 		e := &registry[i]
 		for k := 0; k < nVal; k++ {
 			r.Mark("case %s %d", strings.ReplaceAll(e.name, " ", "_"), k)
-			e.one(c, r.Rnd.Uint64(), k%6 == 5, "random")
+			e.one(c, c.rnd.Uint64(), k%6 == 5, "random")
 		}
 	}
 	// forwarding / carbons: Wrap then Unwrap
 	nUnw := r.Pick(200, 3000)
 	for k := 0; k < nUnw; k++ {
 		r.Mark("case unwrap %d", k)
-		unwrapCase(c, r.Rnd.Uint64(), "random")
+		unwrapCase(c, c.rnd.Uint64(), "random")
 	}
 	// pubsub request builders on a real session
 	nPub := r.Pick(60, 600)
 	for k := 0; k < nPub; k++ {
 		r.Mark("case pubsub %d", k)
-		pubsubCase(c, r.Rnd.Uint64(), "random")
+		pubsubCase(c, c.rnd.Uint64(), "random")
 	}
 	// arbitrary XML into every unmarshaller
 	nXML := r.Pick(150, 2500)
@@ -431,9 +442,9 @@ func Run(r *common.Run) error {
 			return [][]byte{b}
 		}}
 	r.Mark("case xml")
-	c.fuzzType(&formEntry, r.Rnd.Fork(), nXML*3)
+	c.fuzzType(&formEntry, c.rnd.Fork(), nXML*3)
 	for i := range registry {
-		c.fuzzType(&registry[i], r.Rnd.Fork(), nXML)
+		c.fuzzType(&registry[i], c.rnd.Fork(), nXML)
 	}
 	r.Notes = append(r.Notes, fmt.Sprintf("%d payload types registered (+ form.Data); internal/saslerr and muc's unexported join options are not importable from the harness module: layer 1 only", len(registry)))
 	return nil
